@@ -138,6 +138,14 @@ class World(object):
 
     # ------------------------------------------------------------------ file-system steps
     def fs_step(self, s):
+        """apply one file-system step; steps that cannot apply to the current tree (path through a
+        symlink or a file, name too long, ...) are skipped and return None"""
+        try:
+            return self._fs_step(s)
+        except OSError:
+            return None
+
+    def _fs_step(self, s):
         op = s["op"]
         d = self.ndisk(s.get("disk", 0))
         ev = None
